@@ -7,6 +7,7 @@ package main
 import (
 	"fmt"
 	"go/types"
+	"math/big"
 	"strings"
 
 	"golang.org/x/tools/go/ssa"
@@ -70,7 +71,7 @@ func (e *Engine) decodeArbitrary(s *State, f *Frame, x ssa.Value, what string, m
 	}
 	okv := e.freshBool(s, "decode-ok."+what)
 	return e.forkOn(s, f, []alt{
-		{okv, func(ns *State, nf *Frame) { e.setRes(nf, x, Tu{[]Value{mk(ns), If{}}}) }, "decode-ok"},
+		{okv, func(ns *State, nf *Frame) { ns.Lenient++; e.setRes(nf, x, Tu{[]Value{mk(ns), If{}}}) }, "decode-ok"},
 		{Not(okv), func(ns *State, nf *Frame) { e.setRes(nf, x, Tu{[]Value{zeroV, e.newErr(ns, "decode "+what, nil)}}) }, "decode-err"},
 	})
 }
@@ -80,14 +81,76 @@ func registerCodecs() {
 	add("strconv.FormatUint", simple(func(e *Engine, s *State, a []Value, at ssa.Instruction, _ *ssa.Function) Value {
 		return encStr("u64dec", a[0])
 	}))
-	add("strconv.ParseUint", func(e *Engine, s *State, f *Frame, x ssa.Value, sf *ssa.Function, a []Value, at ssa.Instruction) ([]*State, bool) {
-		st := a[0].(Str)
-		if st.Kind == 3 && st.Codec == "u64dec" {
-			e.setRes(f, x, Tu{[]Value{st.Payload, If{}}})
-			return nil, false
+	add("strconv.FormatInt", simple(func(e *Engine, s *State, a []Value, at ssa.Instruction, _ *ssa.Function) Value {
+		return encStr("i64dec", a[0])
+	}))
+	add("strconv.Itoa", simple(func(e *Engine, s *State, a []Value, at ssa.Instruction, _ *ssa.Function) Value {
+		return encStr("i64dec", a[0])
+	}))
+	// parse of a decimal codec string: the text of an unsigned (u64dec) or signed (i64dec) 64-bit
+	// value; succeeds iff the value is representable in the requested type and size
+	parseDec := func(signedResult bool, bitArg int) handler {
+		return func(e *Engine, s *State, f *Frame, x ssa.Value, sf *ssa.Function, a []Value, at ssa.Instruction) ([]*State, bool) {
+			st := a[0].(Str)
+			zero := Sc{BVu(0, 64)}
+			isDec := st.Kind == 3 && (st.Codec == "u64dec" || st.Codec == "i64dec")
+			bits := 64
+			if bitArg >= 0 {
+				bt := a[bitArg].(Sc).T
+				if !bt.IsConst() {
+					isDec = false
+				} else if b := int(bt.Val.Int64()); b != 0 {
+					bits = b
+				}
+				if base := a[1].(Sc).T; !base.IsConst() || (base.Val.Int64() != 10 && base.Val.Int64() != 0) {
+					isDec = false
+				}
+			}
+			if !isDec {
+				what := "u64dec"
+				if signedResult {
+					what = "i64dec"
+				}
+				return e.decodeArbitrary(s, f, x, what, func(ns *State) Value { return Sc{e.freshVar(ns, "dec."+what, BVS(64))} }, zero)
+			}
+			v := st.Payload.(Sc).T
+			srcSigned := st.Codec == "i64dec"
+			var ok *Term
+			switch {
+			case !signedResult && !srcSigned: // unsigned text into uintN
+				ok = True
+				if bits < 64 {
+					ok = Ult(v, BV(new(big.Int).Lsh(big.NewInt(1), uint(bits)), 64))
+				}
+			case !signedResult && srcSigned: // possibly negative text into uintN
+				ok = Sle(BVu(0, 64), v)
+				if bits < 64 {
+					ok = And(ok, Ult(v, BV(new(big.Int).Lsh(big.NewInt(1), uint(bits)), 64)))
+				}
+			case signedResult && !srcSigned: // unsigned text into intN
+				ok = Ult(v, BV(new(big.Int).Lsh(big.NewInt(1), uint(bits-1)), 64))
+			default: // signed text into intN
+				ok = True
+				if bits < 64 {
+					lim := new(big.Int).Lsh(big.NewInt(1), uint(bits-1))
+					ok = And(Slt(v, BV(lim, 64)), Sle(BV(new(big.Int).Neg(lim), 64), v))
+				}
+			}
+			if ok == True {
+				e.setRes(f, x, Tu{[]Value{Sc{v}, If{}}})
+				return nil, false
+			}
+			return e.forkOn(s, f, []alt{
+				{ok, func(ns *State, nf *Frame) { e.setRes(nf, x, Tu{[]Value{Sc{v}, If{}}}) }, "parse-ok"},
+				{Not(ok), func(ns *State, nf *Frame) {
+					e.setRes(nf, x, Tu{[]Value{zero, e.newErr(ns, "strconv: value out of range or sign not allowed", nil)}})
+				}, "parse-range"},
+			})
 		}
-		return e.decodeArbitrary(s, f, x, "u64dec", func(ns *State) Value { return Sc{e.freshVar(ns, "dec.u64", BVS(64))} }, Sc{BVu(0, 64)})
-	})
+	}
+	add("strconv.ParseUint", parseDec(false, 2))
+	add("strconv.ParseInt", parseDec(true, 2))
+	add("strconv.Atoi", parseDec(true, -1))
 	add("github.com/ethereum/go-ethereum/common/hexutil.Encode", encBytes("hexutil"))
 	add("github.com/ethereum/go-ethereum/common/hexutil.Decode", decBytes("hexutil"))
 	add("encoding/hex.EncodeToString", encBytes("hex"))
@@ -121,6 +184,7 @@ func registerCodecs() {
 		if st.Kind == 3 {
 			return Sc{False}
 		}
+		s.Lenient++
 		return Sc{e.freshBool(s, "ishexaddr")}
 	}))
 	hasPrefix := func(st Str, p string) *Term {
